@@ -60,10 +60,10 @@ package format
 //@   requires w.dst != nil && w.written >= 0 && w.written + len(p) <= 4611686018427387904
 //@   loop 1 invariant 0 <= len(p) && len(p) <= len(old(p)) && rg(p) == rg(old(p)) && off(p) + len(p) == off(old(p)) + len(old(p)) && w.written >= 0 && w.written + len(p) <= 4611686018427387904 && w.dst == old(w.dst) && w.dst.$out == old(w.dst.$out)
 //@   loop 1 invariant#written w.written == old(w.written) + (len(old(p)) - len(p))                                [C07 C08]
-//@   loop 1 invariant#text w.buf.$bbuf == wrapcols(old(w.written), bytes(old(p)[:len(old(p)) - len(p)]))   [C07 C08]
+//@   loop 1 invariant#text w.buf.$bbuf == wrapcols(old(w.written), bytes(old(p)[:len(old(p)) - len(p)]))   [C01 C07 C08]
 //@   loop 1 decreases len(p)
 //@   ensures#written err == nil ==> w.written == old(w.written) + len(old(p))                                      [C07 C08]
-//@   ensures#out err == nil ==> w.dst.$out == cat(old(w.dst.$out), wrapcols(old(w.written), old(bytes(p)))) && len(w.buf.$bbuf) == 0   [C07 C08]
+//@   ensures#out err == nil ==> w.dst.$out == cat(old(w.dst.$out), wrapcols(old(w.written), old(bytes(p)))) && len(w.buf.$bbuf) == 0   [C01 C07 C08]
 //@   ensures#prefix exists k in 0..len(wrapcols(old(w.written), old(bytes(p))))+1 :: w.dst.$out == cat(old(w.dst.$out), sub(wrapcols(old(w.written), old(bytes(p))), 0, k))   [C13]
 //@   modifies w.written, w.buf.$bbuf, w.dst.$out
 
